@@ -168,6 +168,16 @@ CLAIMS["C32"] = dict(
     note="Restricted to the named framings.",
 )
 
+CLAIMS["C17"] = dict(
+    engine="kani-transplant",
+    technique="bounded symbolic execution of the per-row version run list (RowDatasetVersionSequence, VersionsIter) with Kani+CBMC over symbolic runs, versions and mask positions",
+    text=("Decides that the run-length list that stores created-at / last-updated versions behaves like the expanded per-row list: len, is_empty, version_at, "
+          "from_uniform_row_count, the versions() iterator (exactly len() items, i-th = version_at(i)) and mask() (remaining rows keep their versions in order, "
+          "emptied runs dropped), for <=3 runs of arbitrary versions. Which version build_manifest assigns on append/update/compaction and the delta queries "
+          "(DataFusion filters over scans) are NOT claimed; the claim is restricted to this kernel."),
+    note="The span of a run is a length-only model of U64Segment (decided under C34). Invariant assumed for versions(): runs are non-empty.",
+)
+
 _IO = "truth lives in async object-store/tokio orchestration (crash points, interleavings, listings); Kani/CBMC has no model of tokio or object_store and no pure kernel implies the statement"
 NOT_APPLICABLE.update({
     "C01": "commit atomicity over crash points: " + _IO,
@@ -196,5 +206,5 @@ NOT_APPLICABLE.update({
     "C42": "relocatability is a statement about every path written by every writer being relative; decided by I/O",
 })
 _PLANNED = "planned in DESIGN.md §5 but its check is not built yet, so it is not claimed"
-for _p in ["C09", "C17", "C27", "C36", "C43"]:
+for _p in ["C09", "C27", "C36", "C43"]:
     NOT_APPLICABLE.setdefault(_p, _PLANNED)
